@@ -161,6 +161,10 @@ class Rewriter(ast.NodeTransformer):
 
     def visit_BinOp(self, node):
         self.generic_visit(node)
+        if isinstance(node.op, (ast.BitAnd, ast.BitOr, ast.BitXor)):
+            opn = {ast.BitAnd: 'and_', ast.BitOr: 'or_', ast.BitXor: 'xor'}[type(node.op)]
+            return ast.copy_location(ast.Call(func=_sx('bitop'), args=[ast.Constant(value=opn), node.left, node.right],
+                                              keywords=[]), node)
         if isinstance(node.op, ast.Mod) and isinstance(node.left, ast.Constant) \
                 and isinstance(node.left.value, str):
             STATS['fmt'] += 1
